@@ -208,3 +208,23 @@ def generate(ctx):
     else:
         os.remove(tmp)
     return ["Relic.Props.C07.key_lookup_atomic_generated"]
+
+
+# --- SCD ops (key lookup by configured id in token/scdtoken, signature vs. the public key GetKey returned): a further
+# correspondence under the pseudo-property C07SCD, checklib/models/scd.py; theorems Relic.Props.C07.scd_signature_matches_key,
+# scd_getkey_selects_configured, scd_getkey_nil_deref (finding F-SCD-1)
+import composite as _composite, scd as _scd
+UNPROVED = list(globals().get("UNPROVED", [])) + _scd.UNPROVED["C07"]
+_gen_c07_scd = generate
+
+
+def generate(ctx):
+    return _gen_c07_scd(ctx) + _scd.generate(ctx)
+
+
+def run(ctx):
+    import runner as _r
+    own, none = _composite.split_replay(ctx, ["scd"])
+    cov, f, k = ({"evaluations": 0, "distinct_nontrivial": 0}, [], []) if none else \
+        _r.correspondence("C07", own, __import__("props.c07", fromlist=["x"]))
+    return _scd.second(ctx, "C07", cov, f, k)
